@@ -396,6 +396,31 @@ ModelPtr Model::clone() const
     }
     applyEquivalenceMapToModel(map, m);
 
+    // Carry the mapping and connection identifiers of the equivalences over to the clone.
+    auto variableAt = [](const ComponentEntityConstPtr &root, const IndexStack &stack) -> VariablePtr {
+        ComponentPtr c = root->component(stack.front());
+        for (size_t i = 1; i + 1 < stack.size(); ++i) {
+            c = c->component(stack.at(i));
+        }
+        return c->variable(stack.back());
+    };
+    for (const auto &entry : map) {
+        auto v1 = variableAt(shared_from_this(), entry.first);
+        auto v1Clone = variableAt(m, entry.first);
+        for (const auto &stack : entry.second) {
+            auto v2 = variableAt(shared_from_this(), stack);
+            auto v2Clone = variableAt(m, stack);
+            auto mappingId = Variable::equivalenceMappingId(v1, v2);
+            if (!mappingId.empty()) {
+                Variable::setEquivalenceMappingId(v1Clone, v2Clone, mappingId);
+            }
+            auto connectionId = Variable::equivalenceConnectionId(v1, v2);
+            if (!connectionId.empty()) {
+                Variable::setEquivalenceConnectionId(v1Clone, v2Clone, connectionId);
+            }
+        }
+    }
+
     return m;
 }
 
